@@ -614,3 +614,586 @@ Section Values.
              rewrite pairs_at_skip_r; [|exact Hg]. apply IHb; auto.
   Qed.
 End Values.
+
+(* ------------------------------------------------------------------ C. the index-level loops refine the merges *)
+Section Refine.
+  Variable T : Type.
+  Variables (zero : T) (add mul : T -> T -> T) (eqz : T -> bool).
+
+  Notation cons_nz := (cons_nz T eqz).
+  Notation filter_nz := (filter_nz T eqz).
+  Notation msum := (msum T add eqz).
+  Notation mmul := (mmul T mul eqz).
+  Notation emit := (emit T eqz).
+
+  Definition suf (ind : list Z) (data : list T) (i : nat) : list (Z * T) := combine (skipn i ind) (skipn i data).
+
+  Lemma suf_all : forall ind data i, (length ind <= i)%nat -> suf ind data i = [].
+  Proof. intros. unfold suf. rewrite (skipn_all2 ind) by lia. reflexivity. Qed.
+
+  Lemma suf_step : forall ind data i j d, nth_error ind i = Some j -> nth_error data i = Some d ->
+    suf ind data i = (j, d) :: suf ind data (S i).
+  Proof. intros. unfold suf. rewrite (nth_error_skipn _ ind i j H), (nth_error_skipn _ data i d H0). reflexivity. Qed.
+
+  Lemma cons_nz_app : forall j v l, cons_nz j v l = cons_nz j v [] ++ l.
+  Proof. intros. unfold K11_SparseVec_proofs.cons_nz. destruct (eqz v); reflexivity. Qed.
+
+  (* the two result buffers: the entries written so far, then at least c free slots *)
+  Definition bufs (out : list (Z * T)) (c : nat) (ri : list Z) (rd : list T) : Prop :=
+    exists rest_i rest_d, ri = map fst out ++ rest_i /\ rd = map snd out ++ rest_d /\
+                          (c <= length rest_i)%nat /\ (c <= length rest_d)%nat.
+
+  Lemma bufs_weaken : forall out c c' ri rd, (c' <= c)%nat -> bufs out c ri rd -> bufs out c' ri rd.
+  Proof. intros out c c' ri rd Hc (a & b & ? & ? & ? & ?). exists a, b. repeat split; auto; lia. Qed.
+
+  Lemma emit_spec : forall out c ri rd j v, bufs out (S c) ri rd ->
+    exists ri' rd', emit (length out) ri rd j v = Some (length (out ++ cons_nz j v []), ri', rd')
+                    /\ bufs (out ++ cons_nz j v []) c ri' rd'.
+  Proof.
+    intros out c ri rd j v (rest_i & rest_d & -> & -> & Hi & Hd).
+    unfold K11_SparseVec.emit, K11_SparseVec_proofs.cons_nz. destruct (eqz v).
+    - rewrite app_nil_r. do 2 eexists. split; [reflexivity|]. exists rest_i, rest_d. repeat split; auto; lia.
+    - destruct rest_i as [|x rest_i]; [simpl in Hi; lia|]. destruct rest_d as [|y rest_d]; [simpl in Hd; lia|].
+      pose proof (set_nth_app _ (map fst out) x rest_i j) as H1. rewrite map_length in H1.
+      pose proof (set_nth_app _ (map snd out) y rest_d v) as H2. rewrite map_length in H2.
+      rewrite H1, H2.
+      do 2 eexists. split.
+      + rewrite app_length. simpl. rewrite Nat.add_1_r. reflexivity.
+      + exists rest_i, rest_d. rewrite !map_app. simpl. rewrite <- !app_assoc. simpl in *. repeat split; auto; lia.
+  Qed.
+
+  Lemma tail_loop_spec : forall ind data, length ind = length data ->
+    forall fuel i out c ri rd,
+    bufs out c ri rd -> (length ind - i <= fuel)%nat -> (length ind - i <= c)%nat ->
+    exists ri' rd',
+      tail_loop T eqz fuel ind data i (length out) ri rd
+      = Some (length (out ++ filter_nz (suf ind data i)), ri', rd')
+      /\ bufs (out ++ filter_nz (suf ind data i)) (c - (length ind - i)) ri' rd'.
+  Proof.
+    intros ind data Hlen. induction fuel as [|f IH]; intros i out c ri rd Hb Hf Hc.
+    - simpl. rewrite suf_all by lia. simpl. rewrite app_nil_r. do 2 eexists. split; [reflexivity|].
+      eapply bufs_weaken; [|exact Hb]. lia.
+    - simpl. destruct (i <? length ind)%nat eqn:E.
+      + apply Nat.ltb_lt in E.
+        destruct (nth_error_lt_some _ ind i E) as [j Hj].
+        destruct (nth_error_lt_some _ data i ltac:(lia)) as [d Hd].
+        rewrite Hd, Hj. rewrite (suf_step ind data i j d Hj Hd).
+        destruct c as [|c]; [lia|].
+        destruct (emit_spec out c ri rd j d Hb) as (ri1 & rd1 & He & Hb1). rewrite He.
+        destruct (IH (S i) _ c ri1 rd1 Hb1 ltac:(lia) ltac:(lia)) as (ri2 & rd2 & Ht & Hb2).
+        rewrite Ht. exists ri2, rd2.
+        assert (Hout : (out ++ cons_nz j d []) ++ filter_nz (suf ind data (S i))
+                       = out ++ filter_nz ((j, d) :: suf ind data (S i))).
+        { rewrite <- app_assoc. f_equal. unfold K11_SparseVec_proofs.filter_nz, K11_SparseVec_proofs.cons_nz. simpl.
+          destruct (eqz d); reflexivity. }
+        rewrite Hout in *. split; [reflexivity|]. eapply bufs_weaken; [|exact Hb2]. lia.
+      + apply Nat.ltb_ge in E. rewrite suf_all by lia. simpl. rewrite app_nil_r. do 2 eexists. split; [reflexivity|].
+        eapply bufs_weaken; [|exact Hb]. lia.
+  Qed.
+
+  Section Two.
+    Variables (ind1 : list Z) (data1 : list T) (ind2 : list Z) (data2 : list T).
+    Hypothesis Hlen1 : length ind1 = length data1.
+    Hypothesis Hlen2 : length ind2 = length data2.
+
+    Lemma sum_main_spec : forall fuel i1 i2 out c ri rd,
+      bufs out c ri rd ->
+      ((length ind1 - i1) + (length ind2 - i2) <= fuel)%nat ->
+      (length (union_l (skipn i1 ind1) (skipn i2 ind2)) <= c)%nat ->
+      exists i1' i2' ri' rd' c' outm,
+        sum_main T add eqz ind1 data1 ind2 data2 fuel i1 i2 (length out) ri rd
+        = Some (i1', i2', length (out ++ outm), ri', rd')
+        /\ bufs (out ++ outm) c' ri' rd'
+        /\ outm ++ filter_nz (suf ind1 data1 i1') ++ filter_nz (suf ind2 data2 i2')
+           = msum (suf ind1 data1 i1) (suf ind2 data2 i2)
+        /\ ((length ind1 - i1') + (length ind2 - i2') <= c')%nat
+        /\ ((length ind1 <= i1')%nat \/ (length ind2 <= i2')%nat).
+    Proof.
+      induction fuel as [|f IH]; intros i1 i2 out c ri rd Hb Hf Hc.
+      - simpl. exists i1, i2, ri, rd, c, []. rewrite app_nil_r.
+        rewrite (suf_all ind1 data1 i1), (suf_all ind2 data2 i2) by lia. simpl.
+        repeat split; auto; try lia.
+      - simpl. destruct ((i1 <? length ind1)%nat && (i2 <? length ind2)%nat) eqn:E.
+        + apply andb_true_iff in E. destruct E as [E1 E2]. apply Nat.ltb_lt in E1, E2.
+          destruct (nth_error_lt_some _ ind1 i1 E1) as [j1 Hj1].
+          destruct (nth_error_lt_some _ ind2 i2 E2) as [j2 Hj2].
+          destruct (nth_error_lt_some _ data1 i1 ltac:(lia)) as [d1 Hd1].
+          destruct (nth_error_lt_some _ data2 i2 ltac:(lia)) as [d2 Hd2].
+          rewrite Hj1, Hj2.
+          rewrite (suf_step ind1 data1 i1 j1 d1 Hj1 Hd1), (suf_step ind2 data2 i2 j2 d2 Hj2 Hd2).
+          rewrite (nth_error_skipn _ ind1 i1 j1 Hj1), (nth_error_skipn _ ind2 i2 j2 Hj2) in Hc.
+          rewrite union_l_cons in Hc. rewrite msum_cons.
+          destruct (j1 =? j2) eqn:Ej; [|destruct (j1 <? j2) eqn:El].
+          * rewrite Hd1, Hd2. cbn [length] in Hc. destruct c as [|c]; [lia|].
+            destruct (emit_spec out c ri rd j1 (add d1 d2) Hb) as (ri1 & rd1 & He & Hb1). rewrite He.
+            destruct (IH (S i1) (S i2) _ c ri1 rd1 Hb1 ltac:(lia) ltac:(lia))
+              as (i1' & i2' & ri' & rd' & c' & outm & Hm & Hb' & Hout & Hcap & Hend).
+            exists i1', i2', ri', rd', c', (cons_nz j1 (add d1 d2) [] ++ outm).
+            rewrite app_assoc. repeat split; auto.
+            rewrite <- app_assoc, Hout. symmetry. apply cons_nz_app.
+          * rewrite Hd1. cbn [length] in Hc. destruct c as [|c]; [lia|].
+            destruct (emit_spec out c ri rd j1 d1 Hb) as (ri1 & rd1 & He & Hb1). rewrite He.
+            assert (Hc' : (length (union_l (skipn (S i1) ind1) (skipn i2 ind2)) <= c)%nat).
+            { rewrite (nth_error_skipn _ ind2 i2 j2 Hj2). lia. }
+            destruct (IH (S i1) i2 _ c ri1 rd1 Hb1 ltac:(lia) Hc')
+              as (i1' & i2' & ri' & rd' & c' & outm & Hm & Hb' & Hout & Hcap & Hend).
+            exists i1', i2', ri', rd', c', (cons_nz j1 d1 [] ++ outm).
+            rewrite app_assoc. repeat split; auto.
+            rewrite <- app_assoc, Hout. rewrite (suf_step ind2 data2 i2 j2 d2 Hj2 Hd2). symmetry. apply cons_nz_app.
+          * rewrite Hd2. cbn [length] in Hc. destruct c as [|c]; [lia|].
+            destruct (emit_spec out c ri rd j2 d2 Hb) as (ri1 & rd1 & He & Hb1). rewrite He.
+            assert (Hc' : (length (union_l (skipn i1 ind1) (skipn (S i2) ind2)) <= c)%nat).
+            { rewrite (nth_error_skipn _ ind1 i1 j1 Hj1). lia. }
+            destruct (IH i1 (S i2) _ c ri1 rd1 Hb1 ltac:(lia) Hc')
+              as (i1' & i2' & ri' & rd' & c' & outm & Hm & Hb' & Hout & Hcap & Hend).
+            exists i1', i2', ri', rd', c', (cons_nz j2 d2 [] ++ outm).
+            rewrite app_assoc. repeat split; auto.
+            rewrite <- app_assoc, Hout. rewrite (suf_step ind1 data1 i1 j1 d1 Hj1 Hd1). symmetry. apply cons_nz_app.
+        + exists i1, i2, ri, rd, c, []. rewrite app_nil_r. simpl.
+          apply andb_false_iff in E. destruct E as [E|E]; apply Nat.ltb_ge in E.
+          * rewrite (suf_all ind1 data1 i1) by lia. simpl.
+            rewrite (skipn_all2 ind1) in Hc by lia. simpl in Hc. rewrite skipn_length in Hc.
+            repeat split; auto; lia.
+          * rewrite (suf_all ind2 data2 i2) by lia. rewrite msum_nil_r. simpl. rewrite app_nil_r.
+            rewrite (skipn_all2 ind2) in Hc by lia. rewrite union_l_nil_r in Hc. rewrite skipn_length in Hc.
+            repeat split; auto; lia.
+    Qed.
+  End Two.
+
+  Lemma bufs_firstn : forall out c ri rd, bufs out c ri rd ->
+    firstn (length out) ri = map fst out /\ firstn (length out) rd = map snd out.
+  Proof.
+    intros out c ri rd (a & b & -> & -> & _ & _). split.
+    - rewrite <- (map_length fst out). apply firstn_app_exact.
+    - rewrite <- (map_length snd out). apply firstn_app_exact.
+  Qed.
+
+  Lemma bufs_init : forall n (ri0 : list Z), length ri0 = n -> bufs [] n ri0 (repeat zero n).
+  Proof. intros. exists ri0, (repeat zero n). simpl. rewrite repeat_length. repeat split; auto; lia. Qed.
+
+  Theorem sparse_sum_refines : forall ind1 data1 ind2 data2,
+    length ind1 = length data1 -> length ind2 = length data2 ->
+    (length (union_l ind1 ind2) <= length (arr_union ind1 ind2))%nat ->
+    sparse_sum T zero add eqz ind1 data1 ind2 data2
+    = Some (map fst (msum (combine ind1 data1) (combine ind2 data2)),
+            map snd (msum (combine ind1 data1) (combine ind2 data2))).
+  Proof.
+    intros ind1 data1 ind2 data2 H1 H2 Hcap. unfold sparse_sum.
+    pose proof (bufs_init _ (arr_union ind1 ind2) eq_refl) as Hb0.
+    destruct (sum_main_spec ind1 data1 ind2 data2 H1 H2 (length ind1 + length ind2) 0 0 [] _ _ _ Hb0
+                ltac:(lia) ltac:(simpl; exact Hcap))
+      as (i1' & i2' & ri' & rd' & c' & outm & Hm & Hb' & Hout & Hc' & Hend).
+    simpl length in Hm. rewrite Hm. simpl app in *.
+    destruct (tail_loop_spec ind1 data1 H1 (length ind1) i1' outm c' ri' rd' Hb' ltac:(lia) ltac:(lia))
+      as (ri1 & rd1 & Ht1 & Hb1). rewrite Ht1.
+    destruct (tail_loop_spec ind2 data2 H2 (length ind2) i2' _ _ ri1 rd1 Hb1 ltac:(lia) ltac:(lia))
+      as (ri2 & rd2 & Ht2 & Hb2). rewrite Ht2.
+    destruct (bufs_firstn _ _ _ _ Hb2) as [Hf1 Hf2]. rewrite Hf1, Hf2.
+    rewrite <- app_assoc, Hout. unfold suf. simpl. reflexivity.
+  Qed.
+
+  Lemma mul_main_spec : forall ind1 data1 ind2 data2,
+    length ind1 = length data1 -> length ind2 = length data2 ->
+    forall fuel i1 i2 out c ri rd,
+      bufs out c ri rd ->
+      ((length ind1 - i1) + (length ind2 - i2) <= fuel)%nat ->
+      (length (inter_l (skipn i1 ind1) (skipn i2 ind2)) <= c)%nat ->
+      exists ri' rd' c',
+        mul_main T mul eqz ind1 data1 ind2 data2 fuel i1 i2 (length out) ri rd
+        = Some (length (out ++ mmul (suf ind1 data1 i1) (suf ind2 data2 i2)), ri', rd')
+        /\ bufs (out ++ mmul (suf ind1 data1 i1) (suf ind2 data2 i2)) c' ri' rd'.
+  Proof.
+    intros ind1 data1 ind2 data2 Hlen1 Hlen2.
+    induction fuel as [|f IH]; intros i1 i2 out c ri rd Hb Hf Hc.
+    - simpl. exists ri, rd, c. rewrite (suf_all ind1 data1 i1) by lia. simpl. rewrite app_nil_r. auto.
+    - simpl. destruct ((i1 <? length ind1)%nat && (i2 <? length ind2)%nat) eqn:E.
+      + apply andb_true_iff in E. destruct E as [E1 E2]. apply Nat.ltb_lt in E1, E2.
+        destruct (nth_error_lt_some _ ind1 i1 E1) as [j1 Hj1].
+        destruct (nth_error_lt_some _ ind2 i2 E2) as [j2 Hj2].
+        destruct (nth_error_lt_some _ data1 i1 ltac:(lia)) as [d1 Hd1].
+        destruct (nth_error_lt_some _ data2 i2 ltac:(lia)) as [d2 Hd2].
+        rewrite Hj1, Hj2.
+        rewrite (suf_step ind1 data1 i1 j1 d1 Hj1 Hd1), (suf_step ind2 data2 i2 j2 d2 Hj2 Hd2).
+        rewrite (nth_error_skipn _ ind1 i1 j1 Hj1), (nth_error_skipn _ ind2 i2 j2 Hj2) in Hc.
+        rewrite inter_l_cons in Hc. rewrite mmul_cons.
+        destruct (j1 =? j2) eqn:Ej; [|destruct (j1 <? j2) eqn:El].
+        * rewrite Hd1, Hd2. cbn [length] in Hc. destruct c as [|c]; [lia|].
+          destruct (emit_spec out c ri rd j1 (mul d1 d2) Hb) as (ri1 & rd1 & He & Hb1). rewrite He.
+          destruct (IH (S i1) (S i2) _ c ri1 rd1 Hb1 ltac:(lia) ltac:(lia)) as (ri' & rd' & c' & Hm & Hb').
+          exists ri', rd', c'. rewrite (cons_nz_app j1 (mul d1 d2) (mmul _ _)). rewrite app_assoc. split; assumption.
+        * assert (Hc' : (length (inter_l (skipn (S i1) ind1) (skipn i2 ind2)) <= c)%nat).
+          { rewrite (nth_error_skipn _ ind2 i2 j2 Hj2). lia. }
+          destruct (IH (S i1) i2 out c ri rd Hb ltac:(lia) Hc') as (ri' & rd' & c' & Hm & Hb').
+          exists ri', rd', c'. rewrite (suf_step ind2 data2 i2 j2 d2 Hj2 Hd2) in Hm, Hb'. split; assumption.
+        * assert (Hc' : (length (inter_l (skipn i1 ind1) (skipn (S i2) ind2)) <= c)%nat).
+          { rewrite (nth_error_skipn _ ind1 i1 j1 Hj1). lia. }
+          destruct (IH i1 (S i2) out c ri rd Hb ltac:(lia) Hc') as (ri' & rd' & c' & Hm & Hb').
+          exists ri', rd', c'. rewrite (suf_step ind1 data1 i1 j1 d1 Hj1 Hd1) in Hm, Hb'. split; assumption.
+      + exists ri, rd, c.
+        apply andb_false_iff in E. destruct E as [E|E]; apply Nat.ltb_ge in E.
+        * rewrite (suf_all ind1 data1 i1) by lia. simpl. rewrite app_nil_r. auto.
+        * rewrite (suf_all ind2 data2 i2) by lia. rewrite mmul_nil_r. rewrite app_nil_r. auto.
+  Qed.
+
+  Theorem sparse_mul_refines : forall ind1 data1 ind2 data2,
+    length ind1 = length data1 -> length ind2 = length data2 ->
+    (length (inter_l ind1 ind2) <= length (arr_intersect ind1 ind2))%nat ->
+    sparse_mul T zero mul eqz ind1 data1 ind2 data2
+    = Some (map fst (mmul (combine ind1 data1) (combine ind2 data2)),
+            map snd (mmul (combine ind1 data1) (combine ind2 data2))).
+  Proof.
+    intros ind1 data1 ind2 data2 H1 H2 Hcap. unfold sparse_mul.
+    pose proof (bufs_init _ (arr_intersect ind1 ind2) eq_refl) as Hb0.
+    destruct (mul_main_spec ind1 data1 ind2 data2 H1 H2 (length ind1 + length ind2) 0 0 [] _ _ _ Hb0
+                ltac:(lia) ltac:(simpl; exact Hcap))
+      as (ri' & rd' & c' & Hm & Hb').
+    change (length (@nil (Z * T))) with 0%nat in Hm. rewrite Hm. simpl app in *.
+    destruct (bufs_firstn _ _ _ _ Hb') as [Hf1 Hf2]. rewrite Hf1, Hf2. reflexivity.
+  Qed.
+
+  (* ---- dense_union *)
+  Notation munion := (munion T zero add eqz).
+  Notation cons_nz2 := (cons_nz2 T eqz).
+
+  Definition bufs2 (out : list (T * T)) (c : nat) (r1 r2 : list T) : Prop :=
+    exists k, r1 = map fst out ++ repeat zero k /\ r2 = map snd out ++ repeat zero k /\ (c <= k)%nat.
+
+  Lemma bufs2_weaken : forall out c c' r1 r2, (c' <= c)%nat -> bufs2 out c r1 r2 -> bufs2 out c' r1 r2.
+  Proof. intros out c c' r1 r2 Hc (k & ? & ? & ?). exists k. repeat split; auto; lia. Qed.
+
+  Lemma cons_nz2_app : forall v p l, cons_nz2 v p l = cons_nz2 v p [] ++ l.
+  Proof. intros. unfold K11_SparseVec_proofs.cons_nz2. destruct (eqz v); reflexivity. Qed.
+
+  Definition wval (w : option T) : T := match w with Some v => v | None => zero end.
+
+  Lemma emit2_spec : forall out c r1 r2 val w1 w2, bufs2 out (S c) r1 r2 ->
+    exists r1' r2', emit2 T eqz (length out) r1 r2 val w1 w2
+                    = Some (length (out ++ cons_nz2 val (wval w1, wval w2) []), r1', r2')
+                    /\ bufs2 (out ++ cons_nz2 val (wval w1, wval w2) []) c r1' r2'.
+  Proof.
+    intros out c r1 r2 val w1 w2 (k & -> & -> & Hk).
+    unfold emit2, K11_SparseVec_proofs.cons_nz2. destruct (eqz val).
+    - rewrite app_nil_r. do 2 eexists. split; [reflexivity|]. exists k. repeat split; auto; lia.
+    - destruct k as [|k]; [lia|]. simpl repeat.
+      pose proof (set_nth_app _ (map fst out) zero (repeat zero k)) as H1. rewrite map_length in H1.
+      pose proof (set_nth_app _ (map snd out) zero (repeat zero k)) as H2. rewrite map_length in H2.
+      assert (Hl : length (out ++ [(wval w1, wval w2)]) = S (length out))
+        by (rewrite app_length; simpl; lia).
+      rewrite Hl.
+      assert (Hb : bufs2 (out ++ [(wval w1, wval w2)]) c
+                     (map fst out ++ wval w1 :: repeat zero k) (map snd out ++ wval w2 :: repeat zero k)).
+      { exists k. rewrite !map_app. simpl. rewrite <- !app_assoc. simpl. repeat split; auto; lia. }
+      destruct w1 as [v1|], w2 as [v2|]; simpl wval in *; rewrite ?H1, ?H2; do 2 eexists; (split; [reflexivity|exact Hb]).
+  Qed.
+
+  Lemma du_tail_spec : forall (first : bool) ind data, length ind = length data ->
+    forall fuel i out c r1 r2,
+    bufs2 out c r1 r2 -> (length ind - i <= fuel)%nat -> (length ind - i <= c)%nat ->
+    let tl := map (fun p : Z * T => if first then (snd p, zero) else (zero, snd p)) (filter_nz (suf ind data i)) in
+    exists r1' r2',
+      du_tail T eqz fuel first ind data i (length out) r1 r2 = Some (length (out ++ tl), r1', r2')
+      /\ bufs2 (out ++ tl) (c - (length ind - i)) r1' r2'.
+  Proof.
+    intros first ind data Hlen. induction fuel as [|f IH]; intros i out c r1 r2 Hb Hf Hc tl; subst tl.
+    - simpl. rewrite suf_all by lia. simpl. rewrite app_nil_r. do 2 eexists. split; [reflexivity|].
+      eapply bufs2_weaken; [|exact Hb]. lia.
+    - simpl. destruct (i <? length ind)%nat eqn:E.
+      + apply Nat.ltb_lt in E.
+        destruct (nth_error_lt_some _ ind i E) as [j Hj].
+        destruct (nth_error_lt_some _ data i ltac:(lia)) as [d Hd].
+        rewrite Hd. rewrite (suf_step ind data i j d Hj Hd).
+        destruct c as [|c]; [lia|].
+        assert (He : exists r1a r2a,
+                   (if first then emit2 T eqz (length out) r1 r2 d (Some d) None
+                    else emit2 T eqz (length out) r1 r2 d None (Some d))
+                   = Some (length (out ++ cons_nz2 d (if first then (d, zero) else (zero, d)) []), r1a, r2a)
+                   /\ bufs2 (out ++ cons_nz2 d (if first then (d, zero) else (zero, d)) []) c r1a r2a).
+        { destruct first.
+          - apply (emit2_spec out c r1 r2 d (Some d) None Hb).
+          - apply (emit2_spec out c r1 r2 d None (Some d) Hb). }
+        destruct He as (r1a & r2a & He & Hb1). rewrite He.
+        destruct (IH (S i) _ c r1a r2a Hb1 ltac:(lia) ltac:(lia)) as (r1b & r2b & Ht & Hb2).
+        rewrite Ht. exists r1b, r2b.
+        assert (Hout : (out ++ cons_nz2 d (if first then (d, zero) else (zero, d)) [])
+                         ++ map (fun p : Z * T => if first then (snd p, zero) else (zero, snd p))
+                                (filter_nz (suf ind data (S i)))
+                       = out ++ map (fun p : Z * T => if first then (snd p, zero) else (zero, snd p))
+                                    (filter_nz ((j, d) :: suf ind data (S i)))).
+        { rewrite <- app_assoc. f_equal. unfold K11_SparseVec_proofs.filter_nz, K11_SparseVec_proofs.cons_nz2. simpl.
+          destruct (eqz d); simpl; [reflexivity|]. destruct first; reflexivity. }
+        rewrite Hout in *. split; [reflexivity|]. eapply bufs2_weaken; [|exact Hb2]. lia.
+      + apply Nat.ltb_ge in E. rewrite suf_all by lia. simpl. rewrite app_nil_r. do 2 eexists. split; [reflexivity|].
+        eapply bufs2_weaken; [|exact Hb]. lia.
+  Qed.
+
+  Lemma du_main_spec : forall ind1 data1 ind2 data2,
+    length ind1 = length data1 -> length ind2 = length data2 ->
+    forall fuel i1 i2 out c r1 r2,
+      bufs2 out c r1 r2 ->
+      ((length ind1 - i1) + (length ind2 - i2) <= fuel)%nat ->
+      (length (union_l (skipn i1 ind1) (skipn i2 ind2)) <= c)%nat ->
+      exists i1' i2' r1' r2' c' outm,
+        du_main T add eqz ind1 data1 ind2 data2 fuel i1 i2 (length out) r1 r2
+        = Some (i1', i2', length (out ++ outm), r1', r2')
+        /\ bufs2 (out ++ outm) c' r1' r2'
+        /\ outm ++ map (fun p : Z * T => (snd p, zero)) (filter_nz (suf ind1 data1 i1'))
+                 ++ map (fun p : Z * T => (zero, snd p)) (filter_nz (suf ind2 data2 i2'))
+           = munion (suf ind1 data1 i1) (suf ind2 data2 i2)
+        /\ ((length ind1 - i1') + (length ind2 - i2') <= c')%nat
+        /\ ((length ind1 <= i1')%nat \/ (length ind2 <= i2')%nat).
+  Proof.
+    intros ind1 data1 ind2 data2 Hlen1 Hlen2.
+    induction fuel as [|f IH]; intros i1 i2 out c r1 r2 Hb Hf Hc.
+    - simpl. exists i1, i2, r1, r2, c, []. rewrite app_nil_r.
+      rewrite (suf_all ind1 data1 i1), (suf_all ind2 data2 i2) by lia. simpl.
+      repeat split; auto; try lia.
+    - simpl. destruct ((i1 <? length ind1)%nat && (i2 <? length ind2)%nat) eqn:E.
+      + apply andb_true_iff in E. destruct E as [E1 E2]. apply Nat.ltb_lt in E1, E2.
+        destruct (nth_error_lt_some _ ind1 i1 E1) as [j1 Hj1].
+        destruct (nth_error_lt_some _ ind2 i2 E2) as [j2 Hj2].
+        destruct (nth_error_lt_some _ data1 i1 ltac:(lia)) as [d1 Hd1].
+        destruct (nth_error_lt_some _ data2 i2 ltac:(lia)) as [d2 Hd2].
+        rewrite Hj1, Hj2.
+        rewrite (suf_step ind1 data1 i1 j1 d1 Hj1 Hd1), (suf_step ind2 data2 i2 j2 d2 Hj2 Hd2).
+        rewrite (nth_error_skipn _ ind1 i1 j1 Hj1), (nth_error_skipn _ ind2 i2 j2 Hj2) in Hc.
+        rewrite union_l_cons in Hc. rewrite munion_cons.
+        destruct (j1 =? j2) eqn:Ej; [|destruct (j1 <? j2) eqn:El].
+        * rewrite Hd1, Hd2. cbn [length] in Hc. destruct c as [|c]; [lia|].
+          destruct (emit2_spec out c r1 r2 (add d1 d2) (Some d1) (Some d2) Hb) as (ra & rb & He & Hb1).
+          simpl wval in *. rewrite He.
+          destruct (IH (S i1) (S i2) _ c ra rb Hb1 ltac:(lia) ltac:(lia))
+            as (i1' & i2' & r1' & r2' & c' & outm & Hm & Hb' & Hout & Hcap & Hend).
+          exists i1', i2', r1', r2', c', (cons_nz2 (add d1 d2) (d1, d2) [] ++ outm).
+          rewrite app_assoc. repeat split; auto.
+          rewrite <- app_assoc, Hout. symmetry. apply cons_nz2_app.
+        * rewrite Hd1. cbn [length] in Hc. destruct c as [|c]; [lia|].
+          destruct (emit2_spec out c r1 r2 d1 (Some d1) None Hb) as (ra & rb & He & Hb1).
+          simpl wval in *. rewrite He.
+          assert (Hc' : (length (union_l (skipn (S i1) ind1) (skipn i2 ind2)) <= c)%nat).
+          { rewrite (nth_error_skipn _ ind2 i2 j2 Hj2). lia. }
+          destruct (IH (S i1) i2 _ c ra rb Hb1 ltac:(lia) Hc')
+            as (i1' & i2' & r1' & r2' & c' & outm & Hm & Hb' & Hout & Hcap & Hend).
+          exists i1', i2', r1', r2', c', (cons_nz2 d1 (d1, zero) [] ++ outm).
+          rewrite app_assoc. repeat split; auto.
+          rewrite <- app_assoc, Hout. rewrite (suf_step ind2 data2 i2 j2 d2 Hj2 Hd2). symmetry. apply cons_nz2_app.
+        * rewrite Hd2. cbn [length] in Hc. destruct c as [|c]; [lia|].
+          destruct (emit2_spec out c r1 r2 d2 None (Some d2) Hb) as (ra & rb & He & Hb1).
+          simpl wval in *. rewrite He.
+          assert (Hc' : (length (union_l (skipn i1 ind1) (skipn (S i2) ind2)) <= c)%nat).
+          { rewrite (nth_error_skipn _ ind1 i1 j1 Hj1). lia. }
+          destruct (IH i1 (S i2) _ c ra rb Hb1 ltac:(lia) Hc')
+            as (i1' & i2' & r1' & r2' & c' & outm & Hm & Hb' & Hout & Hcap & Hend).
+          exists i1', i2', r1', r2', c', (cons_nz2 d2 (zero, d2) [] ++ outm).
+          rewrite app_assoc. repeat split; auto.
+          rewrite <- app_assoc, Hout. rewrite (suf_step ind1 data1 i1 j1 d1 Hj1 Hd1). symmetry. apply cons_nz2_app.
+      + exists i1, i2, r1, r2, c, []. rewrite app_nil_r. simpl app.
+        apply andb_false_iff in E. destruct E as [E|E]; apply Nat.ltb_ge in E.
+        * rewrite (suf_all ind1 data1 i1) by lia. simpl.
+          rewrite (skipn_all2 ind1) in Hc by lia. simpl in Hc. rewrite skipn_length in Hc.
+          repeat split; auto; lia.
+        * rewrite (suf_all ind2 data2 i2) by lia. rewrite munion_nil_r. simpl. rewrite app_nil_r.
+          rewrite (skipn_all2 ind2) in Hc by lia. rewrite union_l_nil_r in Hc. rewrite skipn_length in Hc.
+          repeat split; auto; lia.
+  Qed.
+
+  Lemma bufs2_firstn : forall out c r1 r2, bufs2 out c r1 r2 ->
+    firstn (length out) r1 = map fst out /\ firstn (length out) r2 = map snd out.
+  Proof.
+    intros out c r1 r2 (k & -> & -> & _). split.
+    - rewrite <- (map_length fst out). apply firstn_app_exact.
+    - rewrite <- (map_length snd out). apply firstn_app_exact.
+  Qed.
+
+  Theorem dense_union_refines : forall ind1 data1 ind2 data2,
+    length ind1 = length data1 -> length ind2 = length data2 ->
+    (length (union_l ind1 ind2) <= length (arr_union ind1 ind2))%nat ->
+    dense_union T zero add eqz ind1 data1 ind2 data2
+    = Some (map fst (munion (combine ind1 data1) (combine ind2 data2)),
+            map snd (munion (combine ind1 data1) (combine ind2 data2))).
+  Proof.
+    intros ind1 data1 ind2 data2 H1 H2 Hcap. unfold dense_union.
+    assert (Hb0 : bufs2 [] (length (arr_union ind1 ind2)) (repeat zero (length (arr_union ind1 ind2)))
+                    (repeat zero (length (arr_union ind1 ind2)))).
+    { exists (length (arr_union ind1 ind2)). simpl. repeat split; auto. }
+    destruct (du_main_spec ind1 data1 ind2 data2 H1 H2 (length ind1 + length ind2) 0 0 [] _ _ _ Hb0
+                ltac:(lia) ltac:(simpl; exact Hcap))
+      as (i1' & i2' & r1' & r2' & c' & outm & Hm & Hb' & Hout & Hc' & Hend).
+    change (length (@nil (T * T))) with 0%nat in Hm. rewrite Hm. simpl app in *.
+    destruct (du_tail_spec true ind1 data1 H1 (length ind1) i1' outm c' r1' r2' Hb' ltac:(lia) ltac:(lia))
+      as (ra & rb & Ht1 & Hb1). rewrite Ht1.
+    destruct (du_tail_spec false ind2 data2 H2 (length ind2) i2' _ _ ra rb Hb1 ltac:(lia) ltac:(lia))
+      as (rc & rd & Ht2 & Hb2). rewrite Ht2.
+    destruct (bufs2_firstn _ _ _ _ Hb2) as [Hf1 Hf2]. rewrite Hf1, Hf2.
+    rewrite <- app_assoc, Hout. unfold suf. simpl. reflexivity.
+  Qed.
+End Refine.
+
+(* ------------------------------------------------------------------ D. final statements *)
+Lemma map_fst_combine : forall (A B : Type) (l : list A) (m : list B), length l = length m -> map fst (combine l m) = l.
+Proof. induction l; destruct m; simpl; intros; try discriminate; auto. f_equal. apply IHl. lia. Qed.
+Lemma map_snd_combine : forall (A B : Type) (l : list A) (m : list B), length l = length m -> map snd (combine l m) = m.
+Proof. induction l; destruct m; simpl; intros; try discriminate; auto. f_equal. apply IHl. lia. Qed.
+Lemma combine_fst_snd : forall (A B : Type) (l : list (A * B)), combine (map fst l) (map snd l) = l.
+Proof. induction l as [|[a b] l IH]; simpl; auto. f_equal. exact IH. Qed.
+
+Section Final.
+  Variable T : Type.
+  Variables (zero : T) (add mul : T -> T -> T) (opp : T -> T) (eqz : T -> bool).
+  Variable eqT : T -> T -> Prop.
+  Hypothesis eqT_refl : forall x, eqT x x.
+  Hypothesis eqT_sym : forall x y, eqT x y -> eqT y x.
+  Hypothesis eqT_trans : forall x y z, eqT x y -> eqT y z -> eqT x z.
+  Hypothesis eqz_spec : forall x, eqz x = true <-> eqT x zero.
+  Hypothesis add_zero_r : forall x, eqT (add x zero) x.
+  Hypothesis add_zero_l : forall x, eqT (add zero x) x.
+  Hypothesis mul_zero_r : forall x, eqT (mul x zero) zero.
+  Hypothesis mul_zero_l : forall x, eqT (mul zero x) zero.
+  Hypothesis opp_zero : eqT (opp zero) zero.
+  Hypothesis add_compat_r : forall x y y', eqT y y' -> eqT (add x y) (add x y').
+
+  Notation lookup := (lookup T zero).
+  Notation dense := (dense T zero).
+  Notation incrP := (incrP T).
+  Notation nonzero := (nonzero T eqz).
+
+  Lemma lookup_in : forall M k v, incrP M -> In (k, v) M -> lookup k M = v.
+  Proof.
+    induction M as [|[j w] t IH]; intros k v Hs Hin; [inversion Hin|]. simpl.
+    destruct Hin as [Hin|Hin].
+    - inversion Hin; subst. rewrite Z.eqb_refl. reflexivity.
+    - pose proof (incr_head _ _ Hs) as Hh. simpl in Hh. rewrite Forall_forall in Hh.
+      assert (j < k) by (apply Hh; apply (in_map fst) in Hin; exact Hin).
+      destruct (j =? k) eqn:E; [apply Z.eqb_eq in E; lia|]. apply IH; auto. eapply incr_tail; eauto.
+  Qed.
+  Lemma lookup_notin : forall M k, ~ In k (map fst M) -> lookup k M = zero.
+  Proof.
+    induction M as [|[j w] t IH]; intros k H; simpl; auto.
+    destruct (j =? k) eqn:E; [apply Z.eqb_eq in E; subst; exfalso; apply H; left; reflexivity|].
+    apply IH. intro Hin. apply H. right. exact Hin.
+  Qed.
+
+  Lemma support_iff : forall M k, incrP M -> nonzero M -> (In k (map fst M) <-> ~ eqT (lookup k M) zero).
+  Proof.
+    intros M k Hs Hnz. split.
+    - intros Hin Heq. apply in_map_iff in Hin. destruct Hin as [[j v] [Hj Hin]]. simpl in Hj; subst j.
+      rewrite (lookup_in M k v Hs Hin) in Heq. apply eqz_spec in Heq.
+      unfold K11_SparseVec_proofs.nonzero in Hnz. rewrite Forall_forall in Hnz. specialize (Hnz _ Hin). simpl in Hnz. congruence.
+    - intros Hne. destruct (In_dec Z.eq_dec k (map fst M)) as [Hin|Hnot]; auto.
+      exfalso. apply Hne. rewrite (lookup_notin M k Hnot). apply eqT_refl.
+  Qed.
+
+  Definition no_explicit_zero (rd : list T) : Prop := Forall (fun v => eqz v = false) rd.
+
+  Lemma nonzero_snd : forall M, nonzero M -> no_explicit_zero (map snd M).
+  Proof. intros M H. unfold no_explicit_zero. rewrite Forall_map. exact H. Qed.
+
+  (* a valid sparse encoding: strictly increasing indices, one value per index (explicit zeros allowed) *)
+  Definition sparse_ok (ind : list Z) (data : list T) : Prop := incr ind /\ length ind = length data.
+
+  Lemma sparse_ok_incrP : forall ind data, sparse_ok ind data -> incrP (combine ind data).
+  Proof. intros ind data [H1 H2]. unfold K11_SparseVec_proofs.incrP. rewrite map_fst_combine; auto. Qed.
+
+  Theorem sparse_sum_correct : forall ind1 data1 ind2 data2,
+    sparse_ok ind1 data1 -> sparse_ok ind2 data2 ->
+    exists ri rd,
+      sparse_sum T zero add eqz ind1 data1 ind2 data2 = Some (ri, rd)
+      /\ length ri = length rd /\ incr ri /\ no_explicit_zero rd
+      /\ (forall k, eqT (dense ri rd k) (add (dense ind1 data1 k) (dense ind2 data2 k)))
+      /\ (forall k, In k ri <-> ~ eqT (add (dense ind1 data1 k) (dense ind2 data2 k)) zero).
+  Proof.
+    intros ind1 data1 ind2 data2 Ha Hb.
+    pose proof (sparse_ok_incrP _ _ Ha) as Sa. pose proof (sparse_ok_incrP _ _ Hb) as Sb.
+    destruct Ha as [Ia La], Hb as [Ib Lb].
+    set (M := msum T add eqz (combine ind1 data1) (combine ind2 data2)).
+    exists (map fst M), (map snd M).
+    assert (HsM : incrP M) by (apply msum_incr; assumption).
+    assert (HnM : nonzero M) by apply msum_nonzero.
+    assert (HlM : forall k, eqT (lookup k M) (add (dense ind1 data1 k) (dense ind2 data2 k))).
+    { intro k. unfold K11_SparseVec_proofs.dense. apply (msum_lookup T zero add eqz eqT); assumption. }
+    split; [apply sparse_sum_refines; auto; apply union_capacity; assumption|].
+    split; [rewrite !map_length; reflexivity|].
+    split; [exact HsM|]. split; [apply nonzero_snd; exact HnM|].
+    split.
+    - intro k. unfold K11_SparseVec_proofs.dense at 1. rewrite combine_fst_snd. apply HlM.
+    - intro k. rewrite (support_iff M k HsM HnM). split; intros H Hc; apply H.
+      + eapply eqT_trans; [apply HlM|exact Hc].
+      + eapply eqT_trans; [apply eqT_sym; apply HlM|exact Hc].
+  Qed.
+
+  Lemma combine_map_r : forall (ind : list Z) (data : list T) (f : T -> T),
+    combine ind (map f data) = map (fun p => (fst p, f (snd p))) (combine ind data).
+  Proof. induction ind; destruct data; simpl; intros; auto. f_equal. apply IHind. Qed.
+
+  Lemma lookup_map_opp : forall l k, eqT (lookup k (map (fun p => (fst p, opp (snd p))) l)) (opp (lookup k l)).
+  Proof.
+    induction l as [|[j v] t IH]; intro k; simpl.
+    - apply eqT_sym. exact opp_zero.
+    - destruct (j =? k); [apply eqT_refl|apply IH].
+  Qed.
+
+  Theorem sparse_diff_correct : forall ind1 data1 ind2 data2,
+    sparse_ok ind1 data1 -> sparse_ok ind2 data2 ->
+    exists ri rd,
+      sparse_diff T zero add opp eqz ind1 data1 ind2 data2 = Some (ri, rd)
+      /\ length ri = length rd /\ incr ri /\ no_explicit_zero rd
+      /\ (forall k, eqT (dense ri rd k) (add (dense ind1 data1 k) (opp (dense ind2 data2 k))))
+      /\ (forall k, In k ri <-> ~ eqT (add (dense ind1 data1 k) (opp (dense ind2 data2 k))) zero).
+  Proof.
+    intros ind1 data1 ind2 data2 Ha Hb. unfold sparse_diff.
+    assert (Hb' : sparse_ok ind2 (map opp data2)) by (destruct Hb; split; auto; rewrite map_length; auto).
+    destruct (sparse_sum_correct ind1 data1 ind2 (map opp data2) Ha Hb') as (ri & rd & Hs & Hl & Hi & Hz & Hd & Hsupp).
+    assert (Hopp : forall k, eqT (add (dense ind1 data1 k) (dense ind2 (map opp data2) k))
+                             (add (dense ind1 data1 k) (opp (dense ind2 data2 k)))).
+    { intro k. apply add_compat_r. unfold K11_SparseVec_proofs.dense. rewrite combine_map_r. apply lookup_map_opp. }
+    exists ri, rd. repeat split; auto.
+    - intro k. eapply eqT_trans; [apply Hd|apply Hopp].
+    - intros H Hc. apply (proj1 (Hsupp k) H). eapply eqT_trans; [apply Hopp|exact Hc].
+    - intros H. apply (proj2 (Hsupp k)). intro Hc. apply H. eapply eqT_trans; [apply eqT_sym; apply Hopp|exact Hc].
+  Qed.
+
+  Theorem sparse_mul_correct : forall ind1 data1 ind2 data2,
+    sparse_ok ind1 data1 -> sparse_ok ind2 data2 ->
+    exists ri rd,
+      sparse_mul T zero mul eqz ind1 data1 ind2 data2 = Some (ri, rd)
+      /\ length ri = length rd /\ incr ri /\ no_explicit_zero rd
+      /\ (forall k, eqT (dense ri rd k) (mul (dense ind1 data1 k) (dense ind2 data2 k)))
+      /\ (forall k, In k ri <-> ~ eqT (mul (dense ind1 data1 k) (dense ind2 data2 k)) zero).
+  Proof.
+    intros ind1 data1 ind2 data2 Ha Hb.
+    pose proof (sparse_ok_incrP _ _ Ha) as Sa. pose proof (sparse_ok_incrP _ _ Hb) as Sb.
+    destruct Ha as [Ia La], Hb as [Ib Lb].
+    set (M := mmul T mul eqz (combine ind1 data1) (combine ind2 data2)).
+    exists (map fst M), (map snd M).
+    assert (HsM : incrP M) by (apply mmul_incr; assumption).
+    assert (HnM : nonzero M) by apply mmul_nonzero.
+    assert (HlM : forall k, eqT (lookup k M) (mul (dense ind1 data1 k) (dense ind2 data2 k))).
+    { intro k. unfold K11_SparseVec_proofs.dense. apply (mmul_lookup T zero mul eqz eqT); assumption. }
+    split; [apply sparse_mul_refines; auto; apply inter_capacity; assumption|].
+    split; [rewrite !map_length; reflexivity|].
+    split; [exact HsM|]. split; [apply nonzero_snd; exact HnM|].
+    split.
+    - intro k. unfold K11_SparseVec_proofs.dense at 1. rewrite combine_fst_snd. apply HlM.
+    - intro k. rewrite (support_iff M k HsM HnM). split; intros H Hc; apply H.
+      + eapply eqT_trans; [apply HlM|exact Hc].
+      + eapply eqT_trans; [apply eqT_sym; apply HlM|exact Hc].
+  Qed.
+
+  (* dense_union returns the two vectors restricted to the index list sparse_sum computes *)
+  Theorem dense_union_correct : forall ind1 data1 ind2 data2,
+    sparse_ok ind1 data1 -> sparse_ok ind2 data2 ->
+    exists U rd,
+      sparse_sum T zero add eqz ind1 data1 ind2 data2 = Some (U, rd)
+      /\ dense_union T zero add eqz ind1 data1 ind2 data2
+         = Some (map (dense ind1 data1) U, map (dense ind2 data2) U).
+  Proof.
+    intros ind1 data1 ind2 data2 Ha Hb.
+    pose proof (sparse_ok_incrP _ _ Ha) as Sa. pose proof (sparse_ok_incrP _ _ Hb) as Sb.
+    destruct Ha as [Ia La], Hb as [Ib Lb].
+    set (M := msum T add eqz (combine ind1 data1) (combine ind2 data2)).
+    exists (map fst M), (map snd M).
+    split; [apply sparse_sum_refines; auto; apply union_capacity; assumption|].
+    rewrite dense_union_refines by (auto; apply union_capacity; assumption).
+    rewrite (munion_spec T zero add eqz) by assumption.
+    fold M. unfold pairs_at. rewrite !map_map. reflexivity.
+  Qed.
+End Final.
